@@ -562,7 +562,9 @@ def main(tier, t0):
         '(every path, any nesting); zero/one are (0|1, 0, ..); frobenius_map (interpreted for powers 0..2*period+1) maps every component with the '
         'caller\'s power and multiplies component c_i by exactly gamma_i(power) (values compared; identity powers and unit multipliers normalised); all 26 Frobenius coefficients equal '
         '(u+1)^((q^k-1)/d) (arithmetic on extracted constants); conjugate negates exactly the c1 coefficients; Fq6::mul_by_nonresidue is the rotation '
-        '(xi*c2, c0, c1) by copy provenance; inverse() fails only through the subfield inversion. NOT decided: the Karatsuba/Toom '
-        'multiplication, squaring, inversion and sparse-product formulas (ring identities over runtime values).',
+        '(xi*c2, c0, c1) by copy provenance; inverse() fails only through the subfield inversion. Multiplicative part (RING): mul_assign, square, inverse at the three '
+        'levels, mul_by_nonresidue, norm, mul_by_1 / mul_by_01 / mul_by_014 interpreted in the polynomial ring over Fq in the operand coefficients, each call to a tower '
+        'operation replaced by its ring specification: every path equals the quotient-ring product coefficient by coefficient (fast paths under their zero assumptions). '
+        'NOT decided: the Fq operations themselves (generated Montgomery arithmetic, trusted).',
         ['rustc MIR + const evaluation', 'component operations meet their contracts (induction down to the derive-generated Fq)'],
-        ['claim is partial: necessary structural conditions + complete table conformance'])
+        ['decided relative to the prime-field contracts; every tower function is an obligation'])
